@@ -67,6 +67,21 @@ func allScenarios(tier string) []scenario {
 		lb = 2
 	}
 	out = append(out, asyncLargeScenarios(lb)...)
+	out = append(out, nestedScenarios(func(threads int) int {
+		switch {
+		case threads <= 2:
+			return 99
+		case threads <= 4:
+			if th {
+				return 4
+			}
+			return 2
+		}
+		if th {
+			return 2
+		}
+		return 1
+	})...)
 	return out
 }
 
@@ -163,7 +178,7 @@ func racePass(tier string) {
 		reps = 200
 	}
 	scs := allScenarios(tier)
-	ran, problems := 0, 0
+	ran, problems, hung := 0, 0, 0
 	for _, procs := range []int{1, 2, 16} {
 		runtime.GOMAXPROCS(procs)
 		for idx, sc := range scs {
@@ -176,6 +191,7 @@ func racePass(tier string) {
 			if sc.Family == "readonly" && idx%7 != 0 && tier != "thorough" {
 				continue
 			}
+		reps:
 			for r := 0; r < reps; r++ {
 				inst := sc.Mk()
 				done := make(chan struct{})
@@ -185,7 +201,12 @@ func racePass(tier string) {
 				case <-time.After(60 * time.Second):
 					fmt.Printf("RACEPASS-PROBLEM %s: body did not finish within 60 s (GOMAXPROCS=%d)\n", sc.Name, procs)
 					problems++
-					continue
+					hung++
+					if hung >= 3 {
+						fmt.Printf("RACEPASS-DONE executions=%d problems=%d (stopped after 3 bodies that never finished)\n", ran, problems)
+						return
+					}
+					break reps
 				}
 				ran++
 				if v := inst.Oracle(nil); v.Msg != "" {
@@ -317,7 +338,7 @@ func main() {
 		} else if !r.Complete && r.Msg == "" {
 			c.Cut(fmt.Sprintf("%s: interleavings explored up to preemption/delay bound %d only", r.Name, r.Bound))
 		}
-		if r.Family == "async" || r.Family == "async-large" {
+		if r.Family == "async" || r.Family == "async-large" || r.Family == "async-nested" {
 			asyncTable = append(asyncTable, map[string]interface{}{"scenario": r.Name, "executions": r.Executions, "preemption_bound_completed": r.Bound, "all_interleavings": r.Complete, "distinct_outcomes": r.Outcomes, "threads": r.MaxThreads})
 			if r.Outcomes <= 1 && r.MaxThreads > 2 && r.Msg == "" && r.Family == "async" {
 				oneOutcome++
